@@ -17,8 +17,9 @@ PollC    == \E cmd \in PollCmds    : Apply(cmd)
 Burst    == \E cmd \in BurstCmds   : Apply(cmd)
 Advance  == \E cmd \in AdvanceCmds : Apply(cmd)
 HandleOp == \E cmd \in HandleCmds  : Apply(cmd)
+Task     == \E cmd \in TaskCmds    : Apply(cmd)       \* a task spawned by an ask_join handler ends (value or panic)
 
-Next == Spawn \/ Start \/ PollC \/ Burst \/ Advance \/ HandleOp
+Next == Spawn \/ Start \/ PollC \/ Burst \/ Advance \/ HandleOp \/ Task
 
 \* per-actor / per-client fairness, so that one busy party cannot starve another
 BurstOf(a) == \E cmd \in BurstCmds : cmd.a = a /\ Apply(cmd)
@@ -27,14 +28,19 @@ PollOf(c)  == Apply([c |-> "poll", cl |-> c])
 Fairness == /\ \A a \in Actors : WF_vars(BurstOf(a))
             /\ \A c \in Clients : WF_vars(PollOf(c))
             /\ WF_vars(Advance)
+            /\ WF_vars(Task)                   \* every spawned task ends
 
 Spec == Init /\ [][Next]_vars /\ Fairness
 
-Pending(o) == st.O[o].ph \in {"wait", "granted", "reply"}
+Pending(o) == st.O[o].ph \in {"wait", "granted", "reply", "join"}
 
 \* C03: every ask completes once its actor has ended (and, in fact, every ask on a fair system)
 AskCompletes ==
   \A o \in OpIds : (Pending(o) /\ st.O[o].kind \in AskKinds /\ st.A[st.O[o].a].pc = "Done") ~> ~Pending(o)
+
+\* C03, ask_join: it returns once the spawned task has ended -- whatever has become of the actor meanwhile
+AskJoinCompletes ==
+  \A o \in OpIds : (st.O[o].ph = "join") ~> ~Pending(o)
 
 \* C07: an accepted stop(), or the disappearance of the last strong reference, leads to the end of the actor
 StopLeadsToEnd ==
